@@ -23,6 +23,19 @@ Proof.
   rewrite Hmut in Hok. cbn in Hok. destruct (immutable_is_safe_attribute tb spec T m); [discriminate|reflexivity].
 Qed.
 
+(* the call gate for stored bound methods: same finite domain, same checker style *)
+Definition calls_ok (spec : list row) (pubs : btype -> list string) : bool :=
+  forallb (fun T => forallb (fun m => implb (mutates T m) (negb (immutable_is_safe_callable spec T m))) (pubs T)) all_btypes.
+
+Lemma calls_ok_sound : forall spec pubs, calls_ok spec pubs = true ->
+  forall T m, In m (pubs T) -> mutates T m = true -> immutable_is_safe_callable spec T m = false.
+Proof.
+  intros spec pubs Hok T m Hin Hmut. unfold calls_ok in Hok.
+  rewrite forallb_forall in Hok. specialize (Hok T (all_btypes_complete T)).
+  rewrite forallb_forall in Hok. specialize (Hok m Hin).
+  rewrite Hmut in Hok. cbn in Hok. destruct (immutable_is_safe_callable spec T m); [discriminate|reflexivity].
+Qed.
+
 (* rows that fail, for the search: computed by the same definitions *)
 Definition failing_rows (tb : tables) (spec : list row) (pubs : btype -> list string) : list (btype * string) :=
   flat_map (fun T => map (fun m => (T, m))
